@@ -193,7 +193,7 @@ def translate_pattern(pattern: str, flags: int = 0, xsd_version: str = '1.0',
             regex.append(ch)
 
         elif ch in ('?', '*', '+'):
-            if pos == 0:
+            if pos == 0 or pattern[pos - 1] == '|' and (pos < 2 or pattern[pos - 2] != '\\'):
                 msg = "unexpected quantifier {!r} at position {}: {!r}"
                 raise RegexError(msg.format(ch, pos, pattern))
             elif pos < pattern_len - 1 and pattern[pos + 1] in '?+*{':
@@ -273,7 +273,8 @@ def translate_pattern(pattern: str, flags: int = 0, xsd_version: str = '1.0',
                 else:
                     regex.append(p_shortcut_group)
 
-            elif pattern[pos] in 'nrt\\|.-^?*+{}()[]$dDsSwW':
+            elif pattern[pos] in 'nrtdDsSwW' or \
+                    not pattern[pos].isalnum() and pattern[pos] != '_':
                 regex.append('\\%s' % pattern[pos])
             else:
                 msg = "invalid escape sequence '\\{}' at position {}: {!r}"
